@@ -1,6 +1,6 @@
 import GmQuic.Lemmas.Flow
 import GmQuic.Lemmas.FlowStream
-import GmQuic.Lemmas.FlowRecver
+import GmQuic.Lemmas.FlowRcvr
 import GmQuic.Lemmas.FlowRecverObs
 import GmQuic.Lemmas.FlowSender
 /-!
@@ -301,7 +301,7 @@ example : ((RecvHalf.run true 100 [.rx 0 40 false]).rx true 5000 20 true).2 = .f
 
 /-! ## Part 4 — the whole receiving state machine: `stop()`, reader drop, RESET_STREAM (run `C11s`)
 
-`AOp` histories: peer STREAM frames, application reads, `Reader::stop`, dropping the `Reader`, RESET_STREAM
+`AOp` histories: peer STREAM frames, application reads (`poll_read` and `poll_next`), `Reader::stop`, dropping the `Reader`, RESET_STREAM
 from the peer.  `fixed = true` is the current tree (FIN-limit fix 36fc566 in); `rfix` is whether
 `Recv::recv_reset` compares the final size with the stream limit (current tree: it does not). -/
 
